@@ -1,3 +1,322 @@
 import TlsModel.Proto
-/- driver stub for C09: replaced when the model exists -/
-def main : IO Unit := Tls.protoMain (fun _ => none)
+import TlsModel.Crypto.Poly1305
+import TlsModel.Crypto.Modes
+import TlsModel.Crypto.Kdf
+import TlsModel.Crypto.Gcm
+import TlsModel.Crypto.Ccm
+/-
+  Driver for C09 (one request per line, bytes in hex, `-` = empty; replies: hex | none | raise:<Exc>).
+
+    chacha key nonce counter rounds pt        Model: ChaCha(key, nonce, counter, rounds).encrypt(pt)
+    chacha_blk key nonce counter rounds       Model: word_to_bytearray(chacha_block(...))
+    chacha_qr a b c d                         Model: the quarter round arithmetic on four ints
+    chacha_spec key nonce counter pt          Spec : RFC 8439 §2.4
+    poly key msg                              Model: Poly1305(key).create_tag(msg)
+    poly2 key msg1 msg2                       Model: two create_tag calls on one object (second tag)
+    poly_spec key msg                         Spec : RFC 8439 §2.5
+    aead_seal key nonce pt aad                Model: CHACHA20_POLY1305(key).seal(nonce, pt, aad)
+    aead_open key nonce ct aad                Model: .open(nonce, ct, aad)
+    aead_seal_spec / aead_open_spec           Spec : RFC 8439 §2.8
+
+  Oracle tables (`tab`): `in:out,in:out,...` in hex or `-`; the block cipher / hash of the model is
+  the table lookup (a miss yields the empty string, which no real primitive returns, so the
+  reply then differs from the implementation's).
+    cbc_enc_seq keylen tabE iv m1 m2 ...      Model: one Python_AES object, encrypt(m1), encrypt(m2)...  -> iv' c1 c2 ...
+    cbc_dec_seq keylen tabD iv c1 c2 ...      Model: decrypt calls                                        -> iv' p1 p2 ...
+    tdes_enc_seq e1;d1;e2;d2;e3;d3 iv m...    Model: Python_TripleDES.encrypt calls (six raw-DES tables)
+    tdes_dec_seq e1;d1;e2;d2;e3;d3 iv c...
+    ctr_seq keylen tabE iv m1 m2 ...          Model: Python_AES_CTR(key, 6, iv), encrypt calls           -> counter c1 c2 ...
+    ctr_set_seq tabE counter cb m1 ...        Model: object with `counter` set and `_counter_bytes` = cb
+    rc4_seq key m1 m2 ...                     Model: Python_RC4(key), encrypt calls                       -> c1 c2 ...
+    cbc_spec bs tabE iv pt | cbc_dec_spec bs tabD iv ct | ctr_spec m tabE T pt | rc4_spec key m1 m2 ...   Spec
+
+  KDFs: a hash is three tokens `bs ds tab` (block size, digest size, oracle table); `4h` = md5 sha1 sha256 sha384
+  tables (sizes fixed 64/16, 64/20, 64/32, 128/48); optional values are hex or `None`.
+    labels                                        the label byte constants equal the string literals
+    hmac bs ds tab key m1 m2 ...                  Model: tlshmac.HMAC(key); update(m1); copy(); update(m2)...; digest()
+    phash bs ds tab secret seed length            Model: P_hash
+    prf t5 t1 secret label seed length            Model: PRF (TLS 1.0/1.1)
+    prf12 bs ds tab secret label seed length      Model: PRF_1_2 / PRF_1_2_SHA384
+    prfssl t5 t1 secret seed length               Model: PRF_SSL
+    digestssl t5 t1 buffer ms label               Model: HandshakeHashes.digestSSL
+    macssl bs ds tab isMd5 key msg                Model: MAC_SSL
+    calckey 4h vmaj vmin secret sha384 label hh cr sr len        Model: calc_key
+    hkdf bs ds tab prk info L                     Model: HKDF_expand (HMAC over the table hash)
+    hkdf_label label ctx length                   Model: the HkdfLabel bytes
+    hkdf_expand_label bs ds tab secret label ctx length | derive_secret bs ds tab secret label hh
+    slice kb m k i                                Model: key block slicing  -> cmac smac ckey skey civ siv
+    pending 4h vmaj vmin sha384 client ms cr sr m k i            Model: calcPendingStates -> wmac wkey wiv rmac rkey riv
+    tls13_pending bs ds tab client cl sr keylen   -> wkey wiv rkey riv ;  tls13_update bs ds tab secret keylen -> next key iv
+    hmac_spec | phash_spec | prf12_spec | hkdf_spec | hkdf_expand_label_spec    the specifications, same arguments
+
+  AEADs over the table block cipher:
+    gcm_seal tabE nonce pt aad | gcm_open tabE nonce ct aad          Model: AESGCM.seal / open
+    gcm_mul h y                                                      Model: _mul(y) with the table built from h
+    gcm_table h                                                      Model: _productTable
+    gcm_gfmul x y | gcm_seal_spec ... | gcm_open_spec ...            Spec : SP 800-38D
+    ccm_seal tabE taglen nonce pt aad | ccm_open tabE taglen nonce ct aad     Model: AESCCM.seal / open
+    ccm_seal_spec ... | ccm_open_spec ...                            Spec : RFC 3610
+-/
+open Tls Tls.Crypto
+
+def outB : Except Err Bytes → String := errOut hexOut
+def outOB : Except Err (Option Bytes) → String :=
+  errOut fun | some b => hexOut b | none => "none"
+
+def handleChaCha : List String → Option String
+  | ["chacha", key, nonce, counter, rounds, pt] => do
+    let key ← ofHex key; let nonce ← ofHex nonce; let pt ← ofHex pt
+    let counter ← counter.toNat?; let rounds ← rounds.toNat?
+    some (outB (ChaCha.Model.init key nonce counter rounds >>= fun s => ChaCha.Model.encrypt s pt))
+  | ["chacha_blk", key, nonce, counter, rounds] => do
+    let key ← ofHex key; let nonce ← ofHex nonce
+    let counter ← counter.toNat?; let rounds ← rounds.toNat?
+    some (outB (ChaCha.Model.init key nonce counter rounds >>= fun s =>
+      ChaCha.Model.chachaBlock s.key s.counter s.nonce s.rounds >>= ChaCha.Model.wordToBytearray))
+  | ["chacha_qr", a, b, c, d] => do
+    let r := ChaCha.Model.qrArith (← a.toNat?) (← b.toNat?) (← c.toNat?) (← d.toNat?)
+    some s!"{r.1} {r.2.1} {r.2.2.1} {r.2.2.2}"
+  | ["chacha_spec", key, nonce, counter, pt] => do
+    let key ← ofHex key; let nonce ← ofHex nonce; let pt ← ofHex pt
+    let counter ← counter.toNat?
+    some (hexOut (ChaCha.Spec.encrypt key counter nonce pt))
+  | ["poly", key, msg] => do
+    let key ← ofHex key; let msg ← ofHex msg
+    some (outB ((Poly1305.Model.init key).map fun st => (Poly1305.Model.createTag st msg).2))
+  | ["poly2", key, m1, m2] => do
+    let key ← ofHex key; let m1 ← ofHex m1; let m2 ← ofHex m2
+    some (outB ((Poly1305.Model.init key).map fun st =>
+      (Poly1305.Model.createTag (Poly1305.Model.createTag st m1).1 m2).2))
+  | ["poly_spec", key, msg] => do
+    let key ← ofHex key; let msg ← ofHex msg
+    some (hexOut (Poly1305.Spec.mac key msg))
+  | ["aead_seal", key, nonce, pt, aad] => do
+    let key ← ofHex key; let nonce ← ofHex nonce; let pt ← ofHex pt; let aad ← ofHex aad
+    some (outB (ChaChaPoly.Model.new key >>= fun k => ChaChaPoly.Model.aseal k nonce pt aad))
+  | ["aead_open", key, nonce, ct, aad] => do
+    let key ← ofHex key; let nonce ← ofHex nonce; let ct ← ofHex ct; let aad ← ofHex aad
+    some (outOB (ChaChaPoly.Model.new key >>= fun k => ChaChaPoly.Model.aopen k nonce ct aad))
+  | ["aead_seal_spec", key, nonce, pt, aad] => do
+    let key ← ofHex key; let nonce ← ofHex nonce; let pt ← ofHex pt; let aad ← ofHex aad
+    some (hexOut (ChaChaPoly.Spec.aseal key nonce pt aad))
+  | ["aead_open_spec", key, nonce, ct, aad] => do
+    let key ← ofHex key; let nonce ← ofHex nonce; let ct ← ofHex ct; let aad ← ofHex aad
+    some (match ChaChaPoly.Spec.aopen key nonce ct aad with | some b => hexOut b | none => "none")
+  | _ => none
+
+/-! oracle tables -/
+def parsePair (s : String) : Option (Bytes × Bytes) :=
+  match s.splitOn ":" with
+  | [a, b] => do some (← ofHex a, ← ofHex b)
+  | _ => none
+
+def parseTab (s : String) : Option (List (Bytes × Bytes)) :=
+  if s == "-" then some [] else (s.splitOn ",").mapM parsePair
+
+def tabFn (t : List (Bytes × Bytes)) : Bytes → Bytes := fun x => (t.lookup x).getD []
+
+def seqOut (r : Except Err (Bytes × List Bytes)) : String :=
+  errOut (fun (p : Bytes × List Bytes) => " ".intercalate ((hexOut p.1) :: p.2.map hexOut)) r
+
+/-- run a stateful operation over a list of messages, threading the state -/
+def runSeq {σ : Type} (f : σ → Bytes → Except Err (σ × Bytes)) : σ → List Bytes → Except Err (σ × List Bytes)
+  | st, [] => .ok (st, [])
+  | st, m :: ms => do
+    let (st, c) ← f st m
+    let (st, cs) ← runSeq f st ms
+    pure (st, c :: cs)
+
+def handleModes : List String → Option String
+  | "cbc_enc_seq" :: kl :: tab :: iv :: msgs => do
+    let E := tabFn (← parseTab tab); let iv ← ofHex iv; let msgs ← msgs.mapM ofHex; let kl ← kl.toNat?
+    some (seqOut (Modes.Model.aesInitGuard kl 2 iv.length >>= fun _ => runSeq (Modes.Model.cbcEncrypt E) iv msgs))
+  | "cbc_dec_seq" :: kl :: tab :: iv :: msgs => do
+    let D := tabFn (← parseTab tab); let iv ← ofHex iv; let msgs ← msgs.mapM ofHex; let kl ← kl.toNat?
+    some (seqOut (Modes.Model.aesInitGuard kl 2 iv.length >>= fun _ => runSeq (Modes.Model.cbcDecrypt D) iv msgs))
+  | op :: tabs :: iv :: msgs =>
+    if op == "tdes_enc_seq" || op == "tdes_dec_seq" then do
+      match (← (tabs.splitOn ";").mapM parseTab) with
+      | [e1, d1, e2, d2, e3, d3] =>
+        let k : Modes.Model.Des3 := ⟨tabFn e1, tabFn d1, tabFn e2, tabFn d2, tabFn e3, tabFn d3⟩
+        let iv ← ofHex iv; let msgs ← msgs.mapM ofHex
+        if op == "tdes_enc_seq" then some (seqOut (runSeq (Modes.Model.tdesEncrypt k) iv msgs))
+        else some (seqOut (runSeq (Modes.Model.tdesDecrypt k) iv msgs))
+      | _ => none
+    else if op == "ctr_seq" then
+      match msgs with
+      | iv' :: msgs => do
+        let kl ← tabs.toNat?; let E := tabFn (← parseTab iv); let iv ← ofHex iv'; let msgs ← msgs.mapM ofHex
+        some (seqOut ((Modes.Model.aesInitGuard kl 6 iv.length >>= fun _ => Modes.Model.ctrInit iv >>= fun c =>
+          runSeq (Modes.Model.ctrEncrypt E) c msgs).map fun r => (r.1.counter, r.2)))
+      | _ => none
+    else if op == "ctr_set_seq" then
+      match msgs with
+      | cb :: msgs => do
+        let E := tabFn (← parseTab tabs); let ctr ← ofHex iv; let cb ← cb.toNat?; let msgs ← msgs.mapM ofHex
+        some (seqOut ((runSeq (Modes.Model.ctrEncrypt E) ⟨ctr, cb⟩ msgs).map fun r => (r.1.counter, r.2)))
+      | _ => none
+    else if op == "cbc_spec" || op == "cbc_dec_spec" then
+      match msgs with
+      | [iv', pt] => do
+        let bs ← tabs.toNat?; let F := tabFn (← parseTab iv); let iv' ← ofHex iv'; let pt ← ofHex pt
+        if bs == 0 then none
+        else if op == "cbc_spec" then some (hexOut (Modes.Spec.cbcEncrypt bs F iv' pt))
+        else some (hexOut (Modes.Spec.cbcDecrypt bs F iv' pt))
+      | _ => none
+    else if op == "ctr_spec" then
+      match msgs with
+      | [t, pt] => do
+        let m ← tabs.toNat?; let E := tabFn (← parseTab iv); let t ← ofHex t; let pt ← ofHex pt
+        some (hexOut (Modes.Spec.ctrEncrypt E (Modes.Spec.incM m) t pt))
+      | _ => none
+    else none
+  | _ => none
+
+def handleRc4 : List String → Option String
+  | "rc4_seq" :: key :: msgs => do
+    let key ← ofHex key; let msgs ← msgs.mapM ofHex
+    some (errOut (fun (l : List Bytes) => if l.isEmpty then "-" else " ".intercalate (l.map hexOut))
+      (Modes.Model.rc4Init key >>= fun st =>
+        (runSeq (fun st m => .ok (Modes.Model.rc4Encrypt st m)) st msgs).map (·.2)))
+  | "rc4_spec" :: key :: msgs => do
+    let key ← ofHex key; let msgs ← msgs.mapM ofHex
+    if h : 0 < key.length then
+      let r := msgs.foldl (fun (acc : Modes.Spec.Rc4 × List Bytes) m =>
+        let r := Modes.Spec.rc4Encrypt acc.1 m; (r.1, acc.2 ++ [r.2])) (Modes.Spec.ksa key h, [])
+      some (if r.2.isEmpty then "-" else " ".intercalate (r.2.map hexOut))
+    else none
+  | _ => none
+
+/-! KDF ops -/
+open Kdf in
+def mkHash (bs ds tab : String) : Option Kdf.Hash := do
+  some { H := tabFn (← parseTab tab), blockSize := ← bs.toNat?, digestSize := ← ds.toNat? }
+
+open Kdf in
+def mkHashes (t5 t1 t256 t384 : String) : Option Kdf.Model.Hashes := do
+  some ⟨← mkHash "64" "16" t5, ← mkHash "64" "20" t1, ← mkHash "64" "32" t256, ← mkHash "128" "48" t384⟩
+
+def optHex (s : String) : Option (Option Bytes) :=
+  if s == "None" then some none else (ofHex s).map some
+
+def optNat (s : String) : Option (Option Nat) :=
+  if s == "None" then some none else s.toNat?.map some
+
+def kmOut (k : Kdf.Model.KeyMaterial) : String := s!"{hexOut k.macKey} {hexOut k.key} {hexOut k.iv}"
+
+open Kdf in
+def handleKdf : List String → Option String
+  | ["labels"] => some (boolOut labelsOk)
+  | "hmac" :: bs :: ds :: tab :: key :: msgs => do
+    let h ← mkHash bs ds tab; let key ← ofHex key; let msgs ← msgs.mapM ofHex
+    some (hexOut (Model.hmacDigest h (msgs.foldl (fun o m => Model.hmacUpdate (Model.hmacCopy o) m) (Model.hmacNew h key none))))
+  | ["hmac_spec", bs, ds, tab, key, msg] => do
+    some (hexOut (Spec.hmac (← mkHash bs ds tab) (← ofHex key) (← ofHex msg)))
+  | ["phash", bs, ds, tab, secret, seed, length] => do
+    some (outB (Model.pHash (← mkHash bs ds tab) (← ofHex secret) (← ofHex seed) (← length.toNat?)))
+  | ["phash_spec", bs, ds, tab, secret, seed, length] => do
+    let h ← mkHash bs ds tab
+    some (hexOut (Spec.pHash (Spec.hmac h) h.digestSize (← ofHex secret) (← ofHex seed) (← length.toNat?)))
+  | ["prf", t5, t1, secret, label, seed, length] => do
+    some (outB (Model.prf (← mkHash "64" "16" t5) (← mkHash "64" "20" t1) (← ofHex secret) (← ofHex label)
+      (← ofHex seed) (← length.toNat?)))
+  | ["prf12", bs, ds, tab, secret, label, seed, length] => do
+    some (outB (Model.prf12 (← mkHash bs ds tab) (← ofHex secret) (← ofHex label) (← ofHex seed) (← length.toNat?)))
+  | ["prf12_spec", bs, ds, tab, secret, label, seed, length] => do
+    some (hexOut (Spec.prf12 (← mkHash bs ds tab) (← ofHex secret) (← ofHex label) (← ofHex seed) (← length.toNat?)))
+  | ["prfssl", t5, t1, secret, seed, length] => do
+    some (hexOut (Model.prfSsl (← mkHash "64" "16" t5) (← mkHash "64" "20" t1) (← ofHex secret) (← ofHex seed)
+      (← length.toNat?)))
+  | ["digestssl", t5, t1, buffer, ms, label] => do
+    let hs ← mkHashes t5 t1 "-" "-"
+    some (hexOut (Model.digestSSL hs (← ofHex buffer) (← ofHex ms) (← ofHex label)))
+  | ["macssl", bs, ds, tab, isMd5, key, msg] => do
+    some (hexOut (Model.macSsl (← mkHash bs ds tab) (isMd5 == "1") (← ofHex key) (← ofHex msg)))
+  | ["calckey", t5, t1, t256, t384, vmaj, vmin, secret, sha384, label, hh, cr, sr, len] => do
+    let hs ← mkHashes t5 t1 t256 t384
+    some (outB (Model.calcKey hs (← vmaj.toNat?, ← vmin.toNat?) (← ofHex secret) (sha384 == "1") (← ofHex label)
+      (← optHex hh) (← optHex cr) (← optHex sr) (← optNat len)))
+  | ["hkdf", bs, ds, tab, prk, info, l] => do
+    let h ← mkHash bs ds tab
+    some (outB (Model.hkdfExpand (Spec.hmac h) h.digestSize (← ofHex prk) (← ofHex info) (← l.toNat?)))
+  | ["hkdf_spec", bs, ds, tab, prk, info, l] => do
+    let h ← mkHash bs ds tab
+    some (hexOut (Spec.hkdfExpand (Spec.hmac h) h.digestSize (← ofHex prk) (← ofHex info) (← l.toNat?)))
+  | ["hkdf_label", label, ctx, length] => do
+    some (outB (Model.hkdfLabel (← ofHex label) (← ofHex ctx) (← length.toNat?)))
+  | ["hkdf_expand_label", bs, ds, tab, secret, label, ctx, length] => do
+    let h ← mkHash bs ds tab
+    some (outB (Model.hkdfExpandLabel (Spec.hmac h) h.digestSize (← ofHex secret) (← ofHex label) (← ofHex ctx)
+      (← length.toNat?)))
+  | ["hkdf_expand_label_spec", bs, ds, tab, secret, label, ctx, length] => do
+    let h ← mkHash bs ds tab
+    some (hexOut (Spec.hkdfExpandLabel (Spec.hmac h) h.digestSize (← ofHex secret) (← ofHex label) (← ofHex ctx)
+      (← length.toNat?)))
+  | ["derive_secret", bs, ds, tab, secret, label, hh] => do
+    let h ← mkHash bs ds tab
+    some (outB (Model.deriveSecret (Spec.hmac h) h (← ofHex secret) (← ofHex label) (← optHex hh)))
+  | ["slice", kb, m, k, i] => do
+    some (errOut (fun (p : Model.KeyMaterial × Model.KeyMaterial) =>
+        s!"{hexOut p.1.macKey} {hexOut p.2.macKey} {hexOut p.1.key} {hexOut p.2.key} {hexOut p.1.iv} {hexOut p.2.iv}")
+      (Model.sliceKeyBlock (← ofHex kb) (← m.toNat?) (← k.toNat?) (← i.toNat?)))
+  | ["pending", t5, t1, t256, t384, vmaj, vmin, sha384, client, ms, cr, sr, m, k, i] => do
+    let hs ← mkHashes t5 t1 t256 t384
+    some (errOut (fun (p : Model.KeyMaterial × Model.KeyMaterial) => s!"{kmOut p.1} {kmOut p.2}")
+      (Model.calcPendingStates hs (← vmaj.toNat?, ← vmin.toNat?) (sha384 == "1") (client == "1") (← ofHex ms)
+        (← ofHex cr) (← ofHex sr) (← m.toNat?) (← k.toNat?) (← i.toNat?)))
+  | ["tls13_pending", bs, ds, tab, client, cl, sr, keylen] => do
+    let h ← mkHash bs ds tab
+    some (errOut (fun (p : (Bytes × Bytes) × (Bytes × Bytes)) =>
+        s!"{hexOut p.1.1} {hexOut p.1.2} {hexOut p.2.1} {hexOut p.2.2}")
+      (Model.calcTls13PendingState (Spec.hmac h) h.digestSize (client == "1") (← ofHex cl) (← ofHex sr) (← keylen.toNat?)))
+  | ["tls13_update", bs, ds, tab, secret, keylen] => do
+    let h ← mkHash bs ds tab
+    some (errOut (fun (p : Bytes × Bytes × Bytes) => s!"{hexOut p.1} {hexOut p.2.1} {hexOut p.2.2}")
+      (Model.calcTls13KeyUpdate (Spec.hmac h) h.digestSize (← ofHex secret) (← keylen.toNat?)))
+  | _ => none
+
+def handleAead : List String → Option String
+  | ["gcm_seal", tab, nonce, pt, aad] => do
+    let E := tabFn (← parseTab tab); let nonce ← ofHex nonce; let pt ← ofHex pt; let aad ← ofHex aad
+    some (outB (Gcm.Model.new E >>= fun o => Gcm.Model.aseal E o nonce pt aad))
+  | ["gcm_open", tab, nonce, ct, aad] => do
+    let E := tabFn (← parseTab tab); let nonce ← ofHex nonce; let ct ← ofHex ct; let aad ← ofHex aad
+    some (outOB (Gcm.Model.new E >>= fun o => Gcm.Model.aopen E o nonce ct aad))
+  | ["gcm_seal_spec", tab, nonce, pt, aad] => do
+    some (hexOut (Gcm.Spec.aseal (tabFn (← parseTab tab)) (← ofHex nonce) (← ofHex pt) (← ofHex aad)))
+  | ["gcm_open_spec", tab, nonce, ct, aad] => do
+    some (match Gcm.Spec.aopen (tabFn (← parseTab tab)) (← ofHex nonce) (← ofHex ct) (← ofHex aad) with
+      | some b => hexOut b | none => "none")
+  | ["gcm_mul", h, y] => do
+    let h ← h.toNat?; let y ← y.toNat?
+    some (errOut toString (Gcm.Model.productTable h >>= fun t => Gcm.Model.mul t y))
+  | ["gcm_table", h] => do
+    some (errOut (fun (t : List Nat) => " ".intercalate (t.map toString)) (Gcm.Model.productTable (← h.toNat?)))
+  | ["gcm_gfmul", x, y] => do some (toString (Gcm.Spec.gfmul (← x.toNat?) (← y.toNat?)))
+  | ["ccm_seal", tab, tl, nonce, pt, aad] => do
+    some (outB (Ccm.Model.aseal (tabFn (← parseTab tab)) (← tl.toNat?) (← ofHex nonce) (← ofHex pt) (← ofHex aad)))
+  | ["ccm_open", tab, tl, nonce, ct, aad] => do
+    some (outOB (Ccm.Model.aopen (tabFn (← parseTab tab)) (← tl.toNat?) (← ofHex nonce) (← ofHex ct) (← ofHex aad)))
+  | ["ccm_seal_spec", tab, tl, nonce, pt, aad] => do
+    some (hexOut (Ccm.Spec.aseal (tabFn (← parseTab tab)) (← tl.toNat?) (← ofHex nonce) (← ofHex pt) (← ofHex aad)))
+  | ["ccm_open_spec", tab, tl, nonce, ct, aad] => do
+    some (match Ccm.Spec.aopen (tabFn (← parseTab tab)) (← tl.toNat?) (← ofHex nonce) (← ofHex ct) (← ofHex aad) with
+      | some b => hexOut b | none => "none")
+  | _ => none
+
+def kdfOps : List String :=
+  ["labels", "hmac", "hmac_spec", "phash", "phash_spec", "prf", "prf12", "prf12_spec", "prfssl", "digestssl", "macssl",
+   "calckey", "hkdf", "hkdf_spec", "hkdf_label", "hkdf_expand_label", "hkdf_expand_label_spec", "derive_secret",
+   "slice", "pending", "tls13_pending", "tls13_update"]
+
+def handle (toks : List String) : Option String :=
+  match toks with
+  | [] => none
+  | op :: _ =>
+    if kdfOps.contains op then handleKdf toks
+    else if op.startsWith "gcm" || op.startsWith "ccm" then handleAead toks
+    else if op.startsWith "rc4" then handleRc4 toks
+    else if op.startsWith "cbc" || op.startsWith "tdes" || op.startsWith "ctr" then handleModes toks
+    else handleChaCha toks
+
+def main : IO Unit := protoMain handle
